@@ -606,7 +606,7 @@ EXPLANATION = (
     "paths and the override branches on it; overwriting a tracked record goes through _modify_record. R3: constant queue "
     "subscripts are [0]; queue and record-table mutators appear only in their owner methods. R4: _add_record reaches _expire on "
     "every path; every mixin override delegates to super() on every path; _expire is a while loop; mixins precede the base in "
-    "the composed class. Does NOT decide that the deque insertion keeps time order.")
+    "the composed class. R1 also: the handler's regexes accept no tmp. file name under any directory names. R5: every increase of active_size is followed by the limit enforcement hook, in the hook itself or in every caller. Does NOT decide that the deque insertion keeps time order.")
 TECHNIQUE = ('Python ast; path-sensitive product analysis of bookkeeping mutations vs returned flag; owner tables for queue/record mutators; MRO/`super()` delegation')
 ASSUMPTIONS = ["watchdog delivers events only for paths under the scheduled watch", "deque.remove raises when the element is absent"]
 FILES = [RB, "python/digital_rf/list_drf.py", "python/digital_rf/watchdog_drf.py"]
